@@ -85,3 +85,24 @@ V('C14', 'neg-flag-test-restructured', S, 'edb.server.compiler.sertypes._describ
   "        if (implicit_id and el_name == 'id') or el_name == '__tid__':", "        if el_name == '__tid__' or (el_name == 'id' and implicit_id):", None)
 V('C14', 'string-length-in-characters', S, 'edb.server.compiler.sertypes._string_packer',
   "    s_bytes = s.encode('utf-8')\n    return _uint32_packer(len(s_bytes)) + s_bytes", "    return _uint32_packer(len(s)) + s.encode('utf-8')", 'C14.R6', '_string_packer:len-prefix=payload')
+
+# round 4
+V('C14', 'cardinality-from-material-pointer', 'edb/server/compiler/sertypes.py',
+  'edb.server.compiler.sertypes._describe_object_shape',
+  '''        links.append(not ptr.is_property(ctx.schema))
+        cardinalities.append(cardinality_from_ptr(ptr, ctx.schema))
+        ctx.schema, material_ptr = ptr.material_type(ctx.schema)
+''', '''        ctx.schema, material_ptr = ptr.material_type(ctx.schema)
+        links.append(not ptr.is_property(ctx.schema))
+        cardinalities.append(cardinality_from_ptr(material_ptr, ctx.schema))
+''', 'C14.R7', 'cardinalities-from-element')
+# negative control: only the statement order changes
+V('C14', 'material-pointer-resolved-first', 'edb/server/compiler/sertypes.py',
+  'edb.server.compiler.sertypes._describe_object_shape',
+  '''        links.append(not ptr.is_property(ctx.schema))
+        cardinalities.append(cardinality_from_ptr(ptr, ctx.schema))
+        ctx.schema, material_ptr = ptr.material_type(ctx.schema)
+''', '''        ctx.schema, material_ptr = ptr.material_type(ctx.schema)
+        links.append(not ptr.is_property(ctx.schema))
+        cardinalities.append(cardinality_from_ptr(ptr, ctx.schema))
+''', None)
